@@ -119,15 +119,24 @@ def step (nfa : Nfa) (cfg : Cfg) (s : Eng) (e : Ev) : Option (Eng × Out) :=
     | .panic => none
     | .none => some ({ s1 with completed := s1.completed + nmatch }, { emitted := ms })
     | .run r =>
-      let (runs2, o) := handleBp cfg s1.created s1.dropped runs1 r
-      let s2 := put s1 runs2
-      let s3 : Eng := match o with
-        | .added => { s2 with created := s2.created + 1 }
-        | .addedEvicting => { s2 with created := s2.created + 1, evicted := s2.evicted + 1 }
-        | .droppedCounted => { s2 with dropped := s2.dropped + 1 }
-        | .refused => s2
-      some ({ s3 with completed := s3.completed + nmatch, nextSeq := s3.nextSeq + 1 },
-            { emitted := ms, started := true, bp := some o })
+      -- `start_run`: a run that starts in an accept state (single-step pattern) is complete; its match is
+      -- reported with the start event and no run is stored (repair `fix: single-step sequence pattern …`)
+      match nfa.states[r.cur]? with
+      | none => none
+      | some st =>
+        if st.ty = .accept then
+          some ({ s1 with completed := s1.completed + nmatch + 1 },
+                { emitted := ms ++ [[{ captured := r.captured, stack := r.stack }]] })
+        else
+          let (runs2, o) := handleBp cfg s1.created s1.dropped runs1 r
+          let s2 := put s1 runs2
+          let s3 : Eng := match o with
+            | .added => { s2 with created := s2.created + 1 }
+            | .addedEvicting => { s2 with created := s2.created + 1, evicted := s2.evicted + 1 }
+            | .droppedCounted => { s2 with dropped := s2.dropped + 1 }
+            | .refused => s2
+          some ({ s3 with completed := s3.completed + nmatch, nextSeq := s3.nextSeq + 1 },
+                { emitted := ms, started := true, bp := some o })
 
 /-- `total_run_count` -/
 def Eng.active (cfg : Cfg) (s : Eng) : Nat :=
